@@ -104,6 +104,11 @@ func jobs() []job {
 		{name: "obipairing:fast-absolute", bin: "obipairing", setup: pairs, args: pairArgs("--fast-absolute", "-D", "3")},
 		{name: "obimultiplex:default", bin: "obimultiplex", setup: mux, args: muxArgs()},
 		{name: "obimultiplex:keep-errors", bin: "obimultiplex", setup: mux, args: muxArgs("--keep-errors", "-e", "1")},
+		{name: "obimultiplex:shared-primer", bin: "obimultiplex", args: muxArgs("--keep-errors"), setup: func(c *core.Ctx, dir string, n int) {
+			m := gen.MultiplexSharedPrimer(c.Rng, n)
+			w(dir, "sheet.txt", m.Sheet)
+			w(dir, "reads.fastq", m.Reads)
+		}},
 		{name: "obimultiplex:close-tags", bin: "obimultiplex", args: muxArgs("--keep-errors"), setup: func(c *core.Ctx, dir string, n int) {
 			m := gen.MultiplexCloseTags(c.Rng, n)
 			w(dir, "sheet.txt", m.Sheet)
